@@ -295,6 +295,16 @@ type nameScope struct {
 	names  []string
 	parent *nameScope
 	objs   []struct{ v, cls string }
+	loop   bool // this block is (inside) a loop body of the same function body
+}
+
+func (ns *nameScope) inLoop() bool {
+	for s := ns; s != nil; s = s.parent {
+		if s.loop {
+			return true
+		}
+	}
+	return false
 }
 
 func (ns *nameScope) declaredHere(n string) bool {
@@ -368,6 +378,9 @@ func (g *xGen) stmtsIn(b *xBody, fs []*xBody, cs []*xClass, n int, depth int, to
 		case k <= 2:
 			g.probes++
 			out = append(out, &xStmt{Kind: "probe", Num: g.probes, Multi: g.t.Draw(5) == 4})
+		case k == 3 && ns.inLoop() && g.t.Draw(2) == 1:
+			// 结束循环 / 继续循环 under a constant condition
+			out = append(out, &xStmt{Kind: "if", Cond: g.t.Draw(2) == 1, Then: []*xStmt{{Kind: []string{"break", "continue"}[g.t.Draw(2)]}}})
 		case k == 3:
 			out = append(out, &xStmt{Kind: "disp", Text: fmt.Sprintf("%s·%d", b.Name, g.t.Draw(90))})
 		case k == 4 || k == 15:
@@ -477,8 +490,8 @@ func (g *xGen) stmtsIn(b *xBody, fs []*xBody, cs []*xClass, n int, depth int, to
 			}
 			out = append(out, st)
 		case k == 14 && depth < 3:
-			st := &xStmt{Kind: []string{"while", "iter"}[g.t.Draw(2)], Var: g.local(), Num: 1 + g.t.Draw(2)}
-			st.Then = g.stmtsIn(b, fs, cs, 1+g.t.Draw(2), depth+1, false, &nameScope{parent: ns})
+			st := &xStmt{Kind: []string{"while", "iter"}[g.t.Draw(2)], Var: g.local(), Num: 1 + g.t.Draw(3)}
+			st.Then = g.stmtsIn(b, fs, cs, 1+g.t.Draw(3), depth+1, false, &nameScope{parent: ns, loop: true})
 			out = append(out, st)
 		default:
 			g.probes++
@@ -589,6 +602,10 @@ func (x *xRender) stmts(indent int, ss []*xStmt) {
 			s.Line = x.emit(indent, "（显示：“拦截到”、其内容）")
 		case "throw":
 			s.Line = x.emit(indent, fmt.Sprintf("抛出%s：“%s”！", s.Class, s.Text))
+		case "break":
+			s.Line = x.emit(indent, "结束循环")
+		case "continue":
+			s.Line = x.emit(indent, "继续循环")
 		case "div0":
 			s.Line = x.emit(indent, fmt.Sprintf("令%s = 1 / 0", s.Var))
 		case "conv":
@@ -829,6 +846,10 @@ func (m *xRef) run(ss []*xStmt) (ret *xVal, ex *xRaise) {
 			fr.this.val++
 		case "showexc":
 			m.display = append(m.display, "拦截到 "+fr.exc.msg)
+		case "break":
+			return nil, &xRaise{class: "\x00loop", kind: "break"}
+		case "continue":
+			return nil, &xRaise{class: "\x00loop", kind: "continue"}
 		case "throw":
 			return nil, m.raise(s.Class, s.Text, "throw")
 		case "div0":
@@ -853,9 +874,17 @@ func (m *xRef) run(ss []*xStmt) (ret *xVal, ex *xRaise) {
 			}
 			fr.line = s.Line
 		case "while", "iter":
+		loop:
 			for i := 0; i < s.Num; i++ {
 				fr.line = s.Line
-				if r, e := m.block(fr, s.Then); r != nil || e != nil {
+				r, e := m.block(fr, s.Then)
+				if e != nil && e.class == "\x00loop" {
+					if e.kind == "break" {
+						break loop
+					}
+					continue
+				}
+				if r != nil || e != nil {
 					return r, e
 				}
 			}
